@@ -17,7 +17,7 @@ OUTSIDE = ('regressions in the transcribed ThreadPool glue itself; pools with mo
 KIT = {'engine': 'cbmc-seq', 'src': 'submit.cpp', 'models': ['aligned_alloc'],
        'repo_sources': ['dispenso/thread_pool_wake.cpp'],
        'no_inline': ['_ZL7k_buildv'], 'unwind_fn': {'_ZL7k_buildv': 6},
-       'spin_loops': True, 'unwind': 4, 'timeout': 400, 'rt_defs': {'VF_SPURIOUS': 0}}
+       'spin_loops': True, 'unwind': 4, 'timeout': 20, 'rt_defs': {'VF_SPURIOUS': 0}}
 
 
 LIVE = {1: (1, 0, 0), 2: (1, 0, 1), 3: (0, 1, 0), 4: (1, 0, 0), 5: (1, 0, 0)}  # path -> live containers (central, ring, steal)
@@ -34,5 +34,5 @@ def inst(name, path, n, g, steps, bounds, tiers=('quick', 'thorough'), **kw):
 
 
 INSTANCES = [
-    inst('schedule_n2', 1, 2, 2, 5, 'one schedule() onto the fully parked pool'),
+    inst('schedule_n2', 1, 2, 2, 3, 'one schedule() onto the fully parked pool'),
 ]
